@@ -97,6 +97,10 @@ class SynImpl:
             return {"t": "spk", "v": _bits(s.spike)}
         if a == "current_at":
             return {"t": "cur", "v": _flat(s.current_at(self._sel(o["sel"])))}
+        if a == "pos_at":
+            return {"t": "cur", "v": _flat(s.pos_current_at(self._sel(o["sel"])))}
+        if a == "neg_at":
+            return {"t": "cur", "v": _flat(s.neg_current_at(self._sel(o["sel"])))}
         if a == "spike_at":
             r = s.spike_at(self._sel(o["sel"]))
             if r.dtype != torch.bool:
